@@ -23,7 +23,9 @@ EXTENDS Ops, TLC
 ReadFmts  == {"srt", "ssa", "ass", "stl", "ttml", "vtt", "ts"}
 WriteFmts == ReadFmts \ {"ts"}
 
-Blank == [fmt |-> "", cues |-> <<>>, fps |-> 0]     \* a created but empty (or unreadable) file
+\* raw: what the file denotes when opened with the option "ignore the timecode start of programme" (STL; the same
+\* as cues for every other format and for the files the library writes, which the model opens without options)
+Blank == [fmt |-> "", cues |-> <<>>, fps |-> 0, raw |-> <<>>]     \* a created but empty (or unreadable) file
 
 ---------------------------------------------------------------------------
 (* time resolution of the formats: every writer truncates (never rounds) *)
@@ -100,7 +102,7 @@ WriteRes(ext, items) ==
   ELSE IF items = <<>> THEN "nothing-to-write"
   ELSE "ok"
 
-Written(ext, fps, items) == [fmt |-> ext, cues |-> TruncAll(ext, fps, items), fps |-> FpsWritten(ext, fps)]
+Written(ext, fps, items) == [fmt |-> ext, cues |-> TruncAll(ext, fps, items), fps |-> FpsWritten(ext, fps), raw |-> TruncAll(ext, fps, items)]
 
 \* os.Create comes first: a failed Write leaves an empty file behind
 DiskAfterWrite(d, f, ext, fps, items) ==
@@ -111,9 +113,10 @@ DiskAfterWrite(d, f, ext, fps, items) ==
 VARIABLES disk, mem, fps, res
 svars == <<disk, mem, fps, res>>
 
-Open(f, ext) ==
+\* opt: Options.STL.IgnoreTimecodeStartOfProgramme (Open hands the options to the STL reader)
+Open(f, ext, opt) ==
   /\ res' = OpenRes(disk, f, ext)
-  /\ IF res' = "ok" THEN mem' = disk[f].cues /\ fps' = disk[f].fps ELSE UNCHANGED <<mem, fps>>
+  /\ IF res' = "ok" THEN mem' = (IF opt /\ ext = "stl" THEN disk[f].raw ELSE disk[f].cues) /\ fps' = disk[f].fps ELSE UNCHANGED <<mem, fps>>
   /\ UNCHANGED disk
 
 Apply(op, a, second) ==
